@@ -479,7 +479,8 @@ def _script_for(i):
     project object, which holds no per-query state, is shared so that no project discovery touches the disk"""
     if not _PROJECT:
         _PROJECT.append(_jedi.Project('/virtual'))
-    return _jedi.Script(EXTRACT_CORPUS[i], path='/virtual/m.py', project=_PROJECT[0])
+    # one path per corpus file: parso's incremental-parser cache and jedi's derived caches are keyed on the path
+    return _jedi.Script(EXTRACT_CORPUS[i], path='/virtual/extract%d.py' % i, project=_PROJECT[0])
 
 
 class C06c(Obligation):
@@ -662,7 +663,7 @@ class C06j(Obligation):
         src = INLINE_PROGRAMS[cfg['file']]
         if not _PROJECT:
             _PROJECT.append(_jedi.Project('/virtual'))
-        script = _jedi.Script(src, path='/virtual/m.py', project=_PROJECT[0])
+        script = _jedi.Script(src, path='/virtual/inline%d.py' % cfg['file'], project=_PROJECT[0])
         lines = src.split('\n')
         K = len(lines) - 1
         line = ctx.int('line', 1, K)
